@@ -33,7 +33,7 @@ theorem f14Witness_straddles : straddles f14Witness = true := by
 one byte early; `=]`-junk follows): F14 is exactly this region. -/
 theorem string_straddle_breaks (v : List UInt8) (h : straddles v = true) :
     decodeLuau (writeString v) = none :=
-  decodeLiteral_straddle .luau v h
+  decodeLiteral_straddle .luau true v h
 
 example : decodeLuau (writeString f14Witness) = none :=
   string_straddle_breaks _ f14Witness_straddles
@@ -50,7 +50,7 @@ every byte string survives: whatever quoting form `write_string` picks, the Luau
 reads the text as exactly one string token denoting `v`. -/
 theorem string_roundtrip_partial (v : List UInt8) (H : straddles v = false) :
     decodeLuau (writeString v) = some v :=
-  decodeLiteral_writeString .luau v (Or.inl rfl) H (fun h => absurd h (by decide))
+  decodeLiteral_writeString .luau true v (Or.inl rfl) H (fun _ h => absurd h (by decide))
 
 /-- `H₁₃` is exact: the literal survives iff the value is outside the straddling region. -/
 theorem string_roundtrip_iff (v : List UInt8) :
@@ -80,7 +80,7 @@ example : straddles [27, 48, 39, 34, 92, 0xc3, 0xa9] = false := by
 with every escape (`\a\b\f\n\r\t\v\\`, quote, `\ddd` padded to three digits exactly when a
 digit follows, `\u{…}`), both quote choices. -/
 theorem quoted_roundtrip (v : List UInt8) : decodeLuau (writeQuoted v) = some v :=
-  decodeLiteral_writeQuoted .luau v (Or.inl rfl)
+  decodeLiteral_writeQuoted .luau true v (Or.inl rfl)
 
 example : decodeLuau (writeQuoted [1, 48, 39, 34, 10, 0xff]) = some [1, 48, 39, 34, 10, 0xff] :=
   quoted_roundtrip _
@@ -88,7 +88,7 @@ example : decodeLuau (writeQuoted [1, 48, 39, 34, 10, 0xff]) = some [1, 48, 39, 
 /-- The quoted form is also right by Lua 5.1's rules unless a `\u{…}` escape is needed. -/
 theorem quoted_roundtrip_lua51 (v : List UInt8) (H : hasUnicodeEscape v = false) :
     decodeLua51 (writeQuoted v) = some v :=
-  decodeLiteral_writeQuoted .lua51 v (Or.inr H)
+  decodeLiteral_writeQuoted .lua51 true v (Or.inr H)
 
 /-- Lua 5.1 reads the literal back as `v` when no `\u{…}` is emitted, the value is outside
 the F14 region, and the level-0 long-bracket form does not contain `[[` (which stock
@@ -97,10 +97,17 @@ theorem lua51_roundtrip (v : List UInt8) (H : lua51Safe v = true) :
     decodeLua51 (writeString v) = some v := by
   simp only [lua51Safe, Bool.and_eq_true, Bool.not_eq_true'] at H
   obtain ⟨⟨hu, hs⟩, hn⟩ := H
-  refine decodeLiteral_writeString .lua51 v (Or.inr hu) hs ?_
-  intro _ huse hlvl
+  refine decodeLiteral_writeString .lua51 true v (Or.inr hu) hs ?_
+  intro _ _ huse hlvl
   rw [hasNestedOpen_eq]
   simpa [nestedOpen51, huse, hlvl] using hn
+
+/-- By the grammar of the Lua 5.1 manual alone (a build without `LUA_COMPAT_LSTR`) the `[[`
+restriction disappears: only `\u{…}` and the F14 region remain excluded. So F14b is a defect
+with respect to the stock build (and `LUA_COMPAT_LSTR = 2`), not with respect to §2.1. -/
+theorem lua51_manual_roundtrip (v : List UInt8) (hu : hasUnicodeEscape v = false)
+    (hs : straddles v = false) : decodeLua51Manual (writeString v) = some v :=
+  decodeLiteral_writeString .lua51 false v (Or.inr hu) hs (fun h => absurd h (by decide))
 
 example : lua51Safe [27, 48, 39, 34, 92, 0xff] = true := by
   have h1 : wantsLongBracket [27, 48, 39, 34, 92, 0xff] = false := by decide
@@ -352,5 +359,94 @@ example : ∃ (ops : NumOps Nat), NumLaws ops ∧ ops.isNaN 3 = false ∧ ops.is
      fmt := fun n => List.replicate n 49, fmtExp := fun _ n => List.replicate n 49,
      parse := fun s => some s.length, ofDecimal := fun d _ => d, eq := fun a b => a == b },
    ⟨by intro x _ _; simp, by intro _ x _ _; simp, by intro y x h _; simpa using h⟩, rfl, rfl⟩
+
+/-! ## `From<f64> for Expression` -/
+
+/-- the value of a tree `Expression::from(f64)` builds: a decimal node denotes the double it
+carries (what `write_number` writes for it reads back as that double: `number_roundtrip`, for
+every recorded exponent); `neg`/`div` are Lua's unary minus and `/` on doubles -/
+def denote {F : Type} (neg : F → F) (div : F → F → F) : NumExpr F → Option F
+  | .lit (.decimal x _) => some x
+  | .lit _ => none
+  | .neg e => (denote neg div e).map neg
+  | .div a b => match denote neg div a, denote neg div b with
+    | some x, some y => some (div x y)
+    | _, _ => none
+
+/-- IEEE facts the tree construction relies on (`neg`, `div` are Lua's operators) -/
+structure FromLaws {F : Type} (ops : FromOps F) (neg : F → F) (div : F → F → F) : Prop where
+  nan_div : ops.isNaN (div ops.posZero ops.posZero) = true
+  inf_pos : ∀ x, ops.isNaN x = false → ops.isInf x = true → ops.signNeg x = false →
+    div ops.one ops.posZero = x
+  inf_neg : ∀ x, ops.isNaN x = false → ops.isInf x = true → ops.signNeg x = true →
+    div (neg ops.one) ops.posZero = x
+  zero_pos : ∀ x, ops.isNaN x = false → ops.isInf x = false → ops.isZero x = true →
+    ops.signNeg x = false → ops.posZero = x
+  zero_neg : ∀ x, ops.isNaN x = false → ops.isInf x = false → ops.isZero x = true →
+    ops.signNeg x = true → ops.negZero = x
+  neg_abs : ∀ x, ops.ltZero x = true → neg (ops.abs x) = x
+
+theorem fromPositive_value {F : Type} (ops : FromOps F) (x : F) :
+    ∃ ex, fromPositive ops x = .decimal x ex := by
+  unfold fromPositive
+  split
+  · exact ⟨_, rfl⟩
+  · split
+    · exact ⟨_, rfl⟩
+    · exact ⟨_, rfl⟩
+
+/-- The tree `Expression::from(x)` builds denotes `x` itself (a NaN for a NaN), whatever the
+exponent the `log10`/`powf` computation records: the exponent only selects the spelling, and
+every spelling reads back as the carried double (`number_roundtrip`). -/
+theorem from_f64_denotes {F : Type} (ops : FromOps F) (neg : F → F) (div : F → F → F)
+    (laws : FromLaws ops neg div) (x : F) :
+    ∃ y, denote neg div (fromF64 ops x) = some y ∧
+      (if ops.isNaN x then ops.isNaN y = true else y = x) := by
+  unfold fromF64
+  cases hn : ops.isNaN x with
+  | true => exact ⟨_, rfl, by simpa using laws.nan_div⟩
+  | false =>
+    simp only [Bool.false_eq_true, if_false]
+    cases hi : ops.isInf x with
+    | true =>
+      simp only [if_true]
+      cases hs : ops.signNeg x with
+      | true => exact ⟨_, rfl, laws.inf_neg x hn hi hs⟩
+      | false => exact ⟨_, rfl, laws.inf_pos x hn hi hs⟩
+    | false =>
+      simp only [Bool.false_eq_true, if_false]
+      cases hz : ops.isZero x with
+      | true =>
+        simp only [if_true]
+        cases hs : ops.signNeg x with
+        | true => exact ⟨_, rfl, laws.zero_neg x hn hi hz hs⟩
+        | false => exact ⟨_, rfl, laws.zero_pos x hn hi hz hs⟩
+      | false =>
+        simp only [Bool.false_eq_true, if_false]
+        cases hl : ops.ltZero x with
+        | true =>
+          simp only [if_true]
+          obtain ⟨ex, he⟩ := fromPositive_value ops (ops.abs x)
+          rw [he]
+          exact ⟨_, rfl, laws.neg_abs x hl⟩
+        | false =>
+          simp only [Bool.false_eq_true, if_false]
+          obtain ⟨ex, he⟩ := fromPositive_value ops x
+          rw [he]
+          exact ⟨_, rfl, rfl⟩
+
+-- non-vacuity: the laws are satisfiable (integers with a NaN/±inf/±0 encoding)
+example : ∃ (ops : FromOps Int) (neg : Int → Int) (div : Int → Int → Int),
+    FromLaws ops neg div ∧ ops.isNaN 5 = false ∧ ops.ltZero (-5) = true :=
+  ⟨{ isNaN := fun x => x == 7777, isInf := fun _ => false, isZero := fun x => x == 0,
+     signNeg := fun _ => false, posZero := 0, negZero := 0, one := 1, ltZero := fun x => x < 0,
+     abs := fun x => x.natAbs, ltTenth := fun _ => false, gt999 := fun x => x > 999,
+     div100FractZero := fun x => x % 100 == 0, log10Floor := fun _ => 3, powf10 := fun _ => 1000,
+     div10 := fun x => x / 10, divFractNonZero := fun v p => v % p != 0 },
+   fun x => -x, fun a b => if a = 0 ∧ b = 0 then 7777 else a / b,
+   ⟨by simp, by intro x _ h; simp at h, by intro x _ h; simp at h,
+    by intro x _ _ h _; simp at h; exact h.symm, by intro x _ _ _ h; simp at h,
+    by intro x h; have hx : x < 0 := by simpa using h
+       show -((x.natAbs : Nat) : Int) = x; omega⟩, by decide, by decide⟩
 
 end DarkluaModel.C13
